@@ -34,7 +34,33 @@ def coerce(v, ty):
         if ty.kind == "strlit":
             return v
         raise UnsupportedError(f"string literal {v.ty.name!r} used where {ty} is expected")
+    if v.ty.kind == "ref" and ty.kind == "ref" and v.ty.name != ty.name:
+        from . import spec as S
+        if is_subrecord(v.ty.name, ty.name) or is_subrecord(ty.name, v.ty.name) or ty.name == "?" or v.ty.name == "?":
+            return Val(ty, v.parts)      # up/down-cast: same reference
+    if v.ty.kind == "opt" and ty.kind == "opt" and v.ty.args[0].kind == "ref" and ty.args[0].kind == "ref":
+        inner = coerce(V.opt_val(v), ty.args[0])
+        return Val(ty, (v.parts[0],) + inner.parts)
+    if v.ty.kind == "list" and ty.kind == "list" and v.ty.elem.kind == "ref" and ty.elem.kind == "ref":
+        coerce(Val(v.ty.elem, [z3.Const("dummy_ref", T.RefSort)]), ty.elem)
+        return Val(ty, v.parts)
     return _orig_coerce(v, ty)
+
+
+def is_subrecord(sub, base):
+    from . import spec as S
+    seen, todo = set(), [sub]
+    while todo:
+        r = todo.pop()
+        if r == base:
+            return True
+        if r in seen:
+            continue
+        seen.add(r)
+        rec = S.RECORDS.get(r)
+        if rec:
+            todo.extend(rec.bases)
+    return False
 
 
 V.coerce = coerce   # values.* helpers (dict_set, list_append, ...) see string literals too
@@ -247,6 +273,10 @@ def list_concat(a, b, facts):
     facts.append(lb >= 0)
     facts.append(z3.ForAll([i], z3.Implies(z3.And(0 <= i, i < la), V.eq(V.list_get(r, i), V.list_get(a, i)))))
     facts.append(z3.ForAll([i], z3.Implies(z3.And(0 <= i, i < lb), V.eq(V.list_get(r, la + i), V.list_get(b, i)))))
+    # the same fact indexed from the result side, so that a term r[j] triggers it
+    j = z3.Int(V.fresh_name("qj"))
+    facts.append(z3.ForAll([j], z3.Implies(z3.And(la <= j, j < la + lb), V.eq(V.list_get(r, j), V.list_get(b, j - la))),
+                           patterns=[r.parts[0][j]] if len(r.parts) > 1 else []))
     return r
 
 
